@@ -237,6 +237,10 @@ func init() {
 			m.ghost["timerlate"] = args[0].(*Term)
 			return nil
 		},
+		"vSpinIsViolation": func(m *Machine, fr *frame, fn *ssa.Function, args []Value) Value {
+			m.ghost["spin"] = tTrue
+			return nil
+		},
 		"vPoisoned": func(m *Machine, fr *frame, fn *ssa.Function, args []Value) Value {
 			_, ok := m.ghost["poison"]
 			return mkBool(ok)
@@ -1234,6 +1238,11 @@ func registerMisc() {
 			return tInf(1)
 		}
 		return tInf(-1)
+	}
+	// pandora: grpc/json line decoding goes through jsoniter (reflection): every line is taken
+	// as a valid entry, the pooled ammo object is returned unchanged
+	I["github.com/yandex/pandora/components/providers/grpc/grpcjson.decodeAmmo"] = func(m *Machine, fr *frame, fn *ssa.Function, a []Value) Value {
+		return tuple{a[1], Iface{}}
 	}
 	I["runtime.Gosched"] = func(m *Machine, fr *frame, fn *ssa.Function, a []Value) Value {
 		m.visible("gosched")
